@@ -642,6 +642,10 @@ class Behavior(_IModel):
                 slot = layout.slots[f"{Slot.eps_v}{i}"]
                 J_e_pg[..., P, slot] = branch.g * dG_e_pg * dNdSig_C
                 J_e_pg[..., nz, slot] = -branch.g * NC_e_pg
+                # so does the flow direction in the evolution of every back-stress
+                for k in range(len(self.__kinematic)):
+                    Bk = layout.slots[f"{Slot.alpha}{k}"]
+                    J_e_pg[..., Bk, slot] = branch.g * dG_e_pg * dNdSig_C
 
         return J_e_pg, D_e_pg
 
